@@ -375,3 +375,385 @@ def stochastic_monitor(task):
                 bound=f"{n} seeded operation sequences (4-30 steps) on 1-3 stations: plugin / unplug / stale unplug / charge-to-full / post_charging_update, "
                       f"early_departure on and off, each played twice under the same random seed",
                 evaluations=evals, distinct_nontrivial=len(distinct), violations=viol, wall_s=round(time.time() - t0, 2))
+
+
+# ============================================================================ C17: tariffs
+TARIFFS = ["pge_a10_tou_aug_2019", "sce_tou_ev_4_march_2019", "sce_tou_ev_4_march_2019_tou_periods_shifted", "sce_tou_ev_8_june_2019",
+           "sce_tou_ev_8_oct_2018"]
+
+
+def _calendar_years():
+    """14 years covering every (leap?, weekday of Jan 1) combination"""
+    import calendar
+    from datetime import date
+    seen, out = set(), []
+    for y in range(2000, 2045):
+        k = (calendar.isleap(y), date(y, 1, 1).weekday())
+        if k not in seen:
+            seen.add(k)
+            out.append(y)
+    assert len(out) == 14
+    return out
+
+
+def _spec_schedule(doc, month, day, weekday):
+    """independent reading of the tariff file: season (cyclic, inclusive) and weekday class"""
+    hits = []
+    for s in doc["schedule"]:
+        a = tuple(int(x) for x in s["effective_start"].split("-"))
+        b = tuple(int(x) for x in s["effective_end"].split("-"))
+        md = (month, day)
+        in_season = (a <= md <= b) if a <= b else (md >= a or md <= b)
+        mask = {"WEEKDAYS": weekday < 5, "WEEKENDS": weekday >= 5, "ALL": True}[s["dow_mask"]]
+        if in_season and mask:
+            hits.append(s)
+    return hits
+
+
+def _spec_rate(s, hour_frac):
+    from fractions import Fraction
+    pts = sorted((Fraction(str(t)), float(r)) for t, r in zip(s["times"], s["tariffs"]))
+    best = None
+    for t, r in pts:
+        if t <= hour_frac:
+            best = r
+    return best
+
+
+def tariff_monitor(task):
+    import json as _json
+    import os as _os
+    import warnings
+    from datetime import datetime, timedelta, date
+    from fractions import Fraction
+    import numpy as np
+    import acnportal.signals.tariffs.tou_tariff as tt
+    from acnportal.signals.tariffs import TimeOfUseTariff
+    t0 = time.time()
+    prop, tier, seed0 = task["prop"], task.get("tier", "quick"), int(task.get("seed", 0))
+    evals = 0
+    viol = []
+    distinct = set()
+    rnd = random.Random(seed0)
+
+    def bad(tag, detail):
+        if len(viol) < 5:
+            rp = write_replay(prop, f"fnmon_{tag}_{len(viol)}.json", dict(kind="fn_monitor", monitor="tariff_monitor", property=prop, clause=tag, detail=detail))
+            viol.append(dict(what=f"{tag}: {detail}"[:300], replay=rp))
+
+    years = _calendar_years()
+    ddir = _os.path.join(_os.path.dirname(tt.__file__), "tariff_schedules")
+    exhaustive_days = 0
+    for name in TARIFFS:
+        doc = _json.load(open(_os.path.join(ddir, name + ".json")))
+        tar = TimeOfUseTariff(name)
+        for s in doc["schedule"]:
+            ts = sorted(float(x) for x in s["times"])
+            evals += 1
+            if ts[0] != 0 or any(not (0 <= x < 24) for x in ts) or len(set(ts)) != len(ts):
+                bad("breakpoints_start_at_0_inside_day", f"{name}/{s['id']}: {s['times']}")
+        # every (month, day, weekday) triple: one representative date per triple (quick) / all 14 calendar types (thorough)
+        seen_triples = set()
+        for y in years:
+            d = date(y, 1, 1)
+            while d.year == y:
+                trip = (d.month, d.day, d.weekday())
+                if tier == "quick" and trip in seen_triples:
+                    d += timedelta(days=1)
+                    continue
+                seen_triples.add(trip)
+                exhaustive_days += 1
+                hits = _spec_schedule(doc, *trip)
+                evals += 1
+                if len(hits) != 1:
+                    bad("exactly_one_schedule_per_day(data)", f"{name} {d} weekday {d.weekday()}: {[h['id'] for h in hits]}")
+                    d += timedelta(days=1)
+                    continue
+                s = hits[0]
+                times = sorted(set([0.0, 23 + 59 / 60.0] + [float(x) for x in s["times"]]))
+                probes = []
+                for b in times:
+                    base = datetime(d.year, d.month, d.day) + timedelta(seconds=round(b * 3600))
+                    for delta in (0, -60, 60, 1):
+                        p = base + timedelta(seconds=delta)
+                        if p.date() == d:
+                            probes.append(p)
+                probes.append(datetime(d.year, d.month, d.day, rnd.randint(0, 23), rnd.randint(0, 59), rnd.randint(0, 59)))
+                for p in probes:
+                    hf = Fraction(p.hour) + Fraction(p.minute, 60) + Fraction(p.second, 3600)
+                    want = _spec_rate(s, hf)
+                    evals += 1
+                    try:
+                        got = tar.get_tariff(p)
+                    except Exception as e:
+                        bad("lookup_is_total", f"{name} {p}: {type(e).__name__}: {e}")
+                        break
+                    if got != want:
+                        bad("price_is_rate_of_latest_breakpoint_for_season_and_day_class", f"{name} {p}: got {got}, file says {want} ({s['id']})")
+                        break
+                try:
+                    dc = tar.get_demand_charge(datetime(d.year, d.month, d.day, 12))
+                    if dc != s.get("demand_charge"):
+                        bad("demand_charge_of_the_day's_schedule", f"{name} {d}: {dc} vs {s.get('demand_charge')}")
+                except Exception as e:
+                    bad("lookup_is_total", f"{name} {d} demand charge: {type(e).__name__}: {e}")
+                d += timedelta(days=1)
+        distinct.update((name,) + t for t in seen_triples)
+        # vector lookup = per-period lookup
+        for _ in range(40 if tier == "quick" else 400):
+            st = datetime(rnd.choice(years), rnd.randint(1, 12), rnd.randint(1, 28), rnd.randint(0, 23), rnd.randint(0, 59))
+            per = rnd.choice([1, 5, 7.5, 15, 60, 90])
+            n = rnd.randint(0, 60)
+            evals += 1
+            try:
+                got = tar.get_tariffs(st, n, per)
+                want = [tar.get_tariff(st + k * timedelta(minutes=per)) for k in range(n)]
+            except ValueError as e:
+                bad("lookup_is_total", f"{name} vector from {st}: {e}")
+                continue
+            if list(got) != want:
+                bad("vector_is_per_period_lookup_at_start+k*period", f"{name} start {st} period {per} n {n}")
+    # interface alignment and cost functions on a real simulation
+    from acnportal import acnsim
+    from acnportal.acnsim import analysis
+    from . import scen
+    for k in range(12 if tier == "quick" else 200):
+        scn = scen.gen(seed0 * 1000 + k, scheduler=dict(kind="uncontrolled"))
+        name = TARIFFS[k % len(TARIFFS)]
+        tar = TimeOfUseTariff(name)
+        with warnings.catch_warnings():
+            warnings.simplefilter("ignore")
+            sim = scen.build(scn)
+            sim.signals = {"tariff": tar}
+            sim.start = datetime(2019, rnd.randint(1, 12), rnd.randint(1, 28), rnd.randint(0, 23), rnd.choice([0, 30, 59]))
+            iface = sim.scheduler.interface
+            sim.run()
+        try:
+            _tariff_alignment(sim, tar, name, iface, rnd, bad)
+            evals += 12
+        except Exception as e:
+            from .drivers import harness_fault
+            if harness_fault(e):
+                raise
+            bad("lookup_is_total", f"{name} on a simulation starting {sim.start}: {type(e).__name__}: {e}")
+    return dict(label=task.get("label", "tariff_monitor"),
+                bound=("all 5 bundled tariff files x every (month, day, weekday) triple (366 x 7 = 2562 per file; thorough: every day of the 14 calendar "
+                       "types) x every breakpoint and +-1 min / +1 s around it, 00:00, 23:59 and a seeded instant; one tariff object per file across all years; "
+                       "vector lookups and Interface/analysis alignment on seeded simulations"),
+                exhaustive_over_dates=True, days_checked=exhaustive_days,
+                evaluations=evals, distinct_nontrivial=len(distinct), violations=viol, wall_s=round(time.time() - t0, 2))
+
+
+def _tariff_alignment(sim, tar, name, iface, rnd, bad):
+    from datetime import timedelta
+    from acnportal.acnsim import analysis
+    if True:
+        per = sim.period
+        evals = 0
+        for start in (None, 0, 1, sim._iteration, 7):
+            n = rnd.randint(1, 30)
+            evals += 1
+            s0 = sim._iteration if start is None else start
+            want = [tar.get_tariff(sim.start + timedelta(minutes=per) * (s0 + j)) for j in range(n)]
+            got = list(iface.get_prices(n, start))
+            if got != want:
+                bad("interface_prices_aligned_with_simulation_time", f"{name} start={start} iteration={sim._iteration} period={per}: got {got[:3]} want {want[:3]}")
+            wdc = tar.get_demand_charge(sim.start + timedelta(minutes=per) * s0)
+            if iface.get_demand_charge(start) != wdc:
+                bad("interface_demand_charge_aligned", f"{name} start={start}")
+        agg = analysis.aggregate_power(sim)
+        prices = [tar.get_tariff(sim.start + timedelta(minutes=per) * j) for j in range(len(agg))]
+        want = sum(p * a for p, a in zip(prices, agg)) * per / 60
+        got = analysis.energy_cost(sim)
+        evals += 2
+        if abs(got - want) > 1e-9 * max(1, abs(want)):
+            bad("energy_cost_is_sum_price_x_power_x_dt", f"{got} vs {want}")
+        wdc = tar.get_demand_charge(sim.start) * (max(agg) if len(agg) else 0)
+        if abs(analysis.demand_charge(sim) - wdc) > 1e-9 * max(1, abs(wdc)):
+            bad("demand_charge_is_rate_x_peak_power", f"{analysis.demand_charge(sim)} vs {wdc}")
+
+
+
+# ============================================================================ C15: session generation
+def events_monitor(task):
+    import math as _m
+    import warnings
+    from datetime import datetime, timedelta
+    import numpy as np
+    import pytz
+    from acnportal.acnsim.events import acndata_events as ae
+    from acnportal.acnsim.events.stochastic_events import StochasticEvents
+    from acnportal.acnsim.models.battery import Battery, Linear2StageBattery, batt_cap_fn
+    t0 = time.time()
+    prop, tier, seed0 = task["prop"], task.get("tier", "quick"), int(task.get("seed", 0))
+    n = 400 if tier == "quick" else 10000
+    rnd = random.Random(seed0)
+    evals = 0
+    viol = []
+    distinct = set()
+
+    def bad(tag, detail):
+        if len(viol) < 5:
+            rp = write_replay(prop, f"fnmon_{tag}_{len(viol)}.json", dict(kind="fn_monitor", monitor="events_monitor", property=prop, clause=tag, detail=detail))
+            viol.append(dict(what=f"{tag}: {detail}"[:300], replay=rp))
+
+    zones = [pytz.timezone(z) for z in ("America/Los_Angeles", "UTC", "America/New_York", "Europe/Berlin", "Asia/Kolkata")]
+
+    def rand_dt(base=None, span_h=72):
+        tz = rnd.choice(zones)
+        if base is None:
+            naive = datetime(rnd.choice([2018, 2019, 2020]), rnd.choice([1, 3, 3, 6, 11, 11]), rnd.randint(1, 28), rnd.randint(0, 23), rnd.randint(0, 59), rnd.randint(0, 59))
+            utc = pytz.utc.localize(naive)
+        else:
+            utc = base + timedelta(seconds=rnd.randint(0, span_h * 3600))
+        return utc.astimezone(tz)
+
+    def idx(dt, period):
+        return _m.floor(dt.timestamp() / (60 * period))
+
+    class CapFn:
+        def __call__(self, e, stay, v, p):
+            return batt_cap_fn(e, stay, v, p)
+
+    for k in range(n):
+        period = rnd.choice([1, 5, 7.5, 15])
+        voltage = rnd.choice([208, 240])
+        pmax = rnd.choice([3.3, 6.6, 7.0])
+        start = rand_dt()
+        conn = rand_dt(start.astimezone(pytz.utc), 48)
+        disc = conn.astimezone(pytz.utc) + timedelta(seconds=rnd.choice([30, 600, 3600, 4 * 3600, 30 * 3600]))
+        disc = disc.astimezone(rnd.choice(zones))
+        kwh = rnd.choice([0.2, 3.0, 14.0, 60.0])
+        max_len = rnd.choice([None, None, 3, 40])
+        ff = rnd.random() < 0.5
+        mode = rnd.choice(["default", "default", "fit"])
+        doc = dict(connectionTime=conn, disconnectTime=disc, kWhDelivered=kwh, sessionID=f"sess{k}", spaceID=f"sp{k % 7}")
+        offset = ae._datetime_to_timestamp(start, period)
+        evals += 1
+        distinct.add((period, max_len, ff, mode, kwh))
+        if offset != idx(start, period):
+            bad("timestamp_is_floor_of_period_index", f"{start} period {period}: {offset} vs {idx(start, period)}")
+        a_want = idx(conn, period) - idx(start, period)
+        d_want = idx(disc, period) - idx(start, period)
+        if max_len is not None and d_want - a_want > max_len:
+            d_want = a_want + max_len
+        if d_want <= a_want:
+            continue            # EV's own constructor rejects zero-length stays; not part of this property
+        e_want = min(kwh, pmax * (d_want - a_want) * period / 60) if ff else kwh
+        bp = None if mode == "default" else dict(type=Linear2StageBattery, capacity_fn=CapFn())
+        try:
+            with warnings.catch_warnings():
+                warnings.simplefilter("ignore")
+                ev = ae._convert_to_ev(doc, offset, period, voltage, pmax, max_len, bp, ff)
+        except ValueError as e:
+            if mode == "fit" and "No feasible battery size" in str(e):
+                continue
+            bad("conversion_total", f"{doc} -> {type(e).__name__}: {e}")
+            continue
+        if (ev.arrival, ev.departure) != (a_want, d_want):
+            bad("arrival_departure_are_period_indices_minus_start_index", f"got {(ev.arrival, ev.departure)} want {(a_want, d_want)} (period {period}, max_len {max_len})")
+        if abs(ev.requested_energy - e_want) > 1e-12 * max(1, e_want):
+            bad("requested_energy_is_delivered_capped_by_feasible", f"got {ev.requested_energy} want {e_want} (force_feasible={ff})")
+        if ev.session_id != doc["sessionID"] or ev.station_id != doc["spaceID"]:
+            bad("ids_copied", f"{ev.session_id} {ev.station_id}")
+        b = ev._battery
+        # the fit's bisection stops within 1e-9 in state of charge, i.e. 1e-9 x capacity in kWh
+        if b._capacity - b._current_charge < ev.requested_energy - (1e-12 if mode == "default" else 2e-9 * b._capacity):
+            bad("battery_free_capacity_covers_request", f"cap {b._capacity} charge {b._current_charge} request {ev.requested_energy}")
+        if mode == "fit":
+            stay = ev.departure - ev.arrival
+            bb = Linear2StageBattery(b._capacity, b._current_charge, 32 * voltage / 1000)
+            c0 = bb._current_charge
+            for _ in range(stay):
+                bb.charge(32, voltage, period)
+            if abs((bb._current_charge - c0) - ev.requested_energy) > 1e-6 * max(1, ev.requested_energy):
+                bad("fit_full_rate_for_the_stay_delivers_exactly_the_request", f"request {ev.requested_energy} stay {stay} cap {b._capacity} init {b._current_charge}: delivered {bb._current_charge - c0}")
+    # get_evs / generate_events end to end with a stubbed data client (order preserved, one offset for all)
+    for k in range(20 if tier == "quick" else 300):
+        period = rnd.choice([1, 5, 15])
+        start = rand_dt()
+        docs = []
+        for j in range(rnd.randint(0, 6)):
+            c = rand_dt(start.astimezone(pytz.utc), 40)
+            docs.append(dict(connectionTime=c, disconnectTime=c + timedelta(hours=rnd.choice([1, 2, 9])), kWhDelivered=rnd.choice([1.0, 8.0]), sessionID=f"s{j}", spaceID=f"p{j}"))
+        orig = ae.DataClient
+
+        class Stub:
+            def __init__(self, token):
+                pass
+
+            def get_sessions_by_time(self, site, s, e):
+                return iter(docs)
+        ae.DataClient = Stub
+        try:
+            evs = ae.get_evs("tok", "caltech", start, start + timedelta(days=3), period, 208, 7.0)
+            q = ae.generate_events("tok", "caltech", start, start + timedelta(days=3), period, 208, 7.0)
+        finally:
+            ae.DataClient = orig
+        evals += 1
+        want = [(idx(d["connectionTime"], period) - idx(start, period), idx(d["disconnectTime"], period) - idx(start, period), d["sessionID"]) for d in docs]
+        got = [(e.arrival, e.departure, e.session_id) for e in evs]
+        if got != want:
+            bad("get_evs_preserves_order_and_uses_one_offset", f"{got} vs {want}")
+        if sorted((ts, e.ev.session_id) for ts, e in q._queue) != sorted((a, s) for a, d_, s in want):
+            bad("generate_events_plugs_each_session_at_its_arrival", "queue content differs")
+    # stochastic samples
+    for k in range(n // 2):
+        period = rnd.choice([1, 5, 12])
+        pmax = rnd.choice([3.3, 6.6])
+        rows = []
+        for j in range(rnd.randint(1, 6)):
+            rows.append([rnd.choice([-1.0, 0.0, 7.3, 18.999, 23.5]), rnd.choice([0.0, -2.0, 0.26, 3.0, 11.7]), rnd.choice([0.0, 0.5, 9.0, 50.0])])
+        max_len = rnd.choice([None, 3, 8])
+        ff = rnd.random() < 0.5
+        mode = rnd.choice(["default", "fit"])
+        bp = None if mode == "default" else dict(type=Linear2StageBattery, capacity_fn=CapFn())
+        evals += 1
+        try:
+            import io, contextlib
+            with contextlib.redirect_stdout(io.StringIO()), warnings.catch_warnings():
+                warnings.simplefilter("ignore")
+                evs = StochasticEvents._convert_ev_matrix(np.array(rows), period, 208, pmax, max_len, bp, ff)
+        except ValueError as e:
+            if "No feasible battery size" in str(e) or "Departure must be later" in str(e):
+                continue
+            bad("sample_conversion_total", f"{rows}: {e}")
+            continue
+        pph = 60 / period
+        want = []
+        for i, (a, dur, en) in enumerate(rows):
+            if a < 0 or dur <= 0 or en <= 0:
+                continue
+            if max_len is not None and dur > max_len:
+                dur = max_len
+            if ff:
+                en = min(pmax * dur, en)
+            want.append((int(a * pph), int((a + dur) * pph), en, f"session_{i}", f"station_{i}"))
+        got = [(e.arrival, e.departure, e.requested_energy, e.session_id, e.station_id) for e in evs]
+        if [g[:2] + g[3:] for g in got] != [w[:2] + w[3:] for w in want] or any(abs(g[2] - w[2]) > 1e-12 for g, w in zip(got, want)):
+            bad("sample_rows_converted_in_order_with_caps", f"got {got} want {want}")
+        for e in evs:
+            b = e._battery
+            if b._capacity - b._current_charge < e.requested_energy - (1e-12 if mode == "default" else 2e-9 * b._capacity):
+                bad("battery_free_capacity_covers_request", f"(sample) cap {b._capacity} charge {b._current_charge} request {e.requested_energy}")
+    # capacity fit on its own
+    for k in range(n):
+        E = rnd.choice([0.05, 0.5, 1.0, 3.0, 7.9, 8.0, 20.0, 39.0, 77.0])
+        stay = rnd.choice([1, 4, 12, 40, 100, 300])
+        V, p = rnd.choice([208, 240]), rnd.choice([1, 5, 15])
+        evals += 1
+        try:
+            cap, init = batt_cap_fn(E, stay, V, p)
+        except ValueError:
+            continue
+        if not (0 <= init <= cap - E + 2e-9 * cap and cap >= E):
+            bad("fit_capacity_covers_request", f"E={E} stay={stay}: cap {cap} init {init}")
+        bb = Linear2StageBattery(cap, init, 32 * V / 1000)
+        for _ in range(stay):
+            bb.charge(32, V, p)
+        if abs((bb._current_charge - init) - E) > 1e-6 * max(1, E):
+            bad("fit_full_rate_for_the_stay_delivers_exactly_the_request", f"E={E} stay={stay} V={V} p={p}: cap {cap} init {init} delivered {bb._current_charge - init}")
+    return dict(label=task.get("label", "events_monitor"),
+                bound=f"{n} seeded session documents (5 time zones incl. DST months, periods 1/5/7.5/15, max_len None/3/40, force_feasible on/off, default and "
+                      f"fitted two-stage batteries), stubbed data client for get_evs/generate_events, {n // 2} sample matrices, {n} (energy, stay) pairs for the capacity fit",
+                evaluations=evals, distinct_nontrivial=len(distinct), violations=viol, wall_s=round(time.time() - t0, 2))
